@@ -102,6 +102,25 @@ def run(chk):
                 ok, dv = close(za, zb, 1e-7)
                 if not ok:
                     oracle_bad.append(dict(op="z independent of the model", n=n, expected=zb.tolist(), observed=za.tolist()))
+    # single-precision processes (the global x64 switch is on in this harness): z is drawn in the PROCESS dtype and the draw stays float32
+    from tinygp import kernels as _k
+    for shp in (None, (), (3,), (2, 1, 3)):
+        n32 = 5
+        X32 = jnp.asarray(np.linspace(0.0, 3.0, n32), dtype=jnp.float32)
+        gp32 = GaussianProcess(_k.ExpSquared(jnp.asarray(1.3, dtype=jnp.float32)), X32, diag=jnp.asarray(0.3, dtype=jnp.float32),
+                               mean=jnp.asarray(0.5, dtype=jnp.float32), solver=DirectSolver)
+        key32 = jax.random.PRNGKey(11)
+        s32 = gp32.sample(key32, shp)
+        full = (n32,) if shp is None else (n32,) + tuple(shp)
+        z32 = np.asarray(jax.random.normal(key32, shape=full, dtype=jnp.float32), dtype=np.float64)
+        L32 = np.linalg.cholesky(np.asarray(gp32.covariance, dtype=np.float64))
+        want32 = 0.5 + np.moveaxis(np.tensordot(L32, z32, axes=(1, 0)), 0, -1) if shp is not None else 0.5 + L32 @ z32
+        info32 = dict(kernel="ExpSquared(float32)", solver="direct", process="prior", shape=str(shp), dtype="float32")
+        hist["float32"] = hist.get("float32", 0) + 1
+        if str(s32.dtype) != "float32":
+            oracle_bad.append(dict(info32, op="dtype of the draw", expected="float32", observed=str(s32.dtype)))
+        elif np.asarray(s32).shape != want32.shape or float(np.max(np.abs(np.asarray(s32, dtype=np.float64) - want32))) > 1e-4:
+            oracle_bad.append(dict(info32, op="mean + L z (z drawn in the process dtype)", expected=want32.tolist(), observed=np.asarray(s32).tolist()))
     model = coq_eval("c12", IMPORTS, exprs, defs=DEFS, shard=10)
     for (info, g), mv in zip(expect, model):
         ok, dv = close(mv, g, 1e-8)
